@@ -14,7 +14,7 @@ TRUSTED = [
 CATALOGUE = ["ins:1:5", "ins:3:6", "del:1", "del:2", "q:1", "q:2", "dm:1", "bq:1,2", "ea:2", "ex:1", "um:1:7", "knn:1",
              "flush", "snap", "stats", "bd:1,2", "bdf:1", "bl:1:8", "kb:1",
              # a near-duplicate of a query cached just before: the semantic (similarity) hit path of the query cache
-             "kn:1;kn:2", "kn:3"]
+             "kn:1;kn:2", "kn:3", "nf"]
 
 
 def programs(thorough, rng):
@@ -23,6 +23,11 @@ def programs(thorough, rng):
     for a, b in pairs:
         lines.append("explore t0=%s t1=%s mode=dfs bound=%d max=%d persist=1 snap=0 rot=0" % (
             a, b, 2 if thorough else 1, 4000 if thorough else 120))
+    # a recent-write tier that has NEVER been drained (the default warm-up drains it once): the ticker's conditional flush against
+    # the operations that touch the tier (seeded change C08-4: `needs_flush` nested stats -> documents on that branch only)
+    for b in ["del:1", "bd:1,2", "ins:3:6", "flush", "um:1:7", "nf"]:
+        lines.append("explore cold=1 warm=ins:1:1;ins:2:2;q:1 t0=nf t1=%s mode=dfs bound=%d max=%d persist=1 snap=0 rot=0" % (
+            b, 2 if thorough else 1, 4000 if thorough else 120))
     # two-op threads and triples, random schedules
     for _ in range(60 if thorough else 12):
         ts = [";".join(rng.choice(CATALOGUE) for _ in range(rng.choice([1, 2]))) for _ in range(3)]
@@ -66,7 +71,7 @@ def run(tier, seed, replay):
         runs += r["runs"]; steps += r["steps"]
         # lock names (order of first acquisition in the warm-up) are comparable only between engines of one configuration
         f = dict(p.split("=", 1) for p in line.split(" ") if "=" in p)
-        key = "persist=%s snap=%s rot=%s" % (f.get("persist", "0"), f.get("snap", "0"), f.get("rot", "0"))
+        key = "persist=%s snap=%s rot=%s" % (f.get("persist", "0"), f.get("snap", "0"), f.get("rot", "0")) + (" cold=1" if f.get("cold") == "1" else "")
         base = cfgs.setdefault(key, 100 * len(cfgs))
         edges |= {renum(e, base) for e in r["edges"]}
         for l in r["locks"]:
@@ -75,7 +80,7 @@ def run(tier, seed, replay):
         if r["deadlock"] not in ("-", ""):
             deadlocks.append((line, r))
     for line, r in deadlocks[:3]:
-        prog = " ".join(p for p in line.split(" ") if p.startswith(("t0=", "t1=", "t2=", "t3=", "persist=", "snap=", "rot=", "warm=")))
+        prog = " ".join(p for p in line.split(" ") if p.startswith(("t0=", "t1=", "t2=", "t3=", "persist=", "snap=", "rot=", "warm=", "cold=")))
         p = rep.write_replay("deadlock_%s.ops" % hashlib.sha1(prog.encode()).hexdigest()[:10],
                              "# engine=conc\n# ORACLE FAILURE on the implementation: DEADLOCK under the controlled scheduler\n# %s\n"
                              "# locks: %s\nreplay %s schedule=%s\n" % (
